@@ -712,6 +712,7 @@ func InstallVarModels(m *interp.Machine) {
 			continue
 		}
 		m.Ext[meth.FullName()] = func(m *interp.Machine, pos token.Pos, recv interp.Value, args []interp.Value) (interp.Value, error) {
+			nNotes := len(m.Notes)
 			v, err := m.CallSource(pos, meth, recv, args)
 			if err == nil {
 				return v, nil
@@ -720,6 +721,8 @@ func InstallVarModels(m *interp.Machine) {
 			if !isU || !strings.Contains(u.Msg, "nil dereference") {
 				return nil, err
 			}
+			// the nil pointer is the abstract variable's missing go/types object, not the generator's
+			m.Notes = m.Notes[:nNotes]
 			m.Notes = append(m.Notes, interp.Note{Rule: "H-UNMODELLED", Key: "Var." + meth.Name(), Pos: pos, Msg: "method " + meth.Name() + " of registry.Var asks the go/types variable: its answer is unknown to engine M"})
 			why := "Var." + meth.Name() + " of " + interp.Show(recv)
 			if msig.Results().Len() > 1 {
